@@ -33,6 +33,10 @@ type Value struct {
 	Definition         *Definition
 	VariableDefinition *VariableDefinition
 	ExpectedType       *Type
+	// ExpectedTypeHasDefault reports that the argument or input field this value is
+	// given for declares a default value (a nullable variable may then be used
+	// there even if the expected type is non-null).
+	ExpectedTypeHasDefault bool `dump:"-" json:"-"`
 }
 
 type ChildValue struct {
